@@ -365,4 +365,25 @@ example : ∃ s, Reachable exCfg2 s ∧ AtRest exCfg2 s ∧ s.wJ = [1] ∧ s.wF 
     have : s.thr[t]? = none := by simp; omega
     simp [this]
 
+
+/-- `exCfg3`: an `init_thread` callback with one scheduling point; job code 0 enqueues a child, then throws (its
+    third call is never made); the child and the main thread read `done()`; main waits with `loop_until_empty()`.
+    The run ends with both jobs started and finished once, job 0 recorded as thrown, `done = 2`. -/
+def exCfg3 : Cfg :=
+  { nworkers := 1, initYields := 1, prog := fun c => if c = 0 then [.enq 1, .throw, .enq 1] else [.obsDone],
+    clients := [], mainCalls := [.enq 0, .lue, .obsDone] }
+def exChoices3 : List (Nat × Nat) := [(0,0),(0,0),(0,0),(0,0),(0,0),(0,0),(0,0),(1,0),(1,0),(1,0),(1,0),(1,0),(1,0),(1,0),(1,0),(1,0),(1,0),(1,0),(1,0),(1,0),(1,0),(1,0),(1,0),(1,0),(1,0),(1,0),(0,0),(0,0),(0,0),(1,0),(1,0),(1,0),(1,0),(1,0),(1,0),(1,0),(1,0),(1,0),(1,0),(0,0),(0,0),(0,0),(0,0),(0,0),(0,0),(0,0),(0,0),(0,0),(1,0),(1,0),(1,0),(1,0),(1,0),(0,0)]
+
+example : (runChoices exCfg3 (init exCfg3) exChoices3).map
+    (fun (s : State) => (s.started, s.finished, s.thrown, s.done)) = some ([0, 1], [0, 1], [0], 2) := by decide
+
+example : (runChoices exCfg3 (init exCfg3) exChoices3).map
+    (fun (s : State) => s.thr.all (fun (th : Thread) => th.pc == Pc.finished)) = some true := by decide
+
+example : JobsOk exCfg3 := by
+  intro code a h
+  by_cases hc : code = 0 <;> simp [exCfg3, hc] at h
+  · rcases h with rfl | rfl | rfl <;> simp
+  · subst h; simp
+
 end TlxVerif.C10
